@@ -19,7 +19,7 @@ def gen_arms(rnd, kinds=("int", "str", "float"), lo=2, hi=6):
     return kind, arms, spare
 
 
-def gen_lp(rnd, name=None, names=None, binarizer=False, regime="exact"):
+def gen_lp(rnd, name=None, names=None, binarizer=False, regime="exact", scale=False):
     if name is None:
         name = rnd.choice(list(names or (CONTEXT_FREE + LINEAR)))
     if name == "EpsilonGreedy":
@@ -42,6 +42,8 @@ def gen_lp(rnd, name=None, names=None, binarizer=False, regime="exact"):
         kw = {"alpha": rnd.choice([0, 0.5, 1, 1.5]), "l2_lambda": rnd.choice([0.1, 0.5, 1, 2, 10])}
     else:
         raise kernel.HarnessError(name)
+    if scale and name in LINEAR and rnd.random() < 0.25:
+        kw["scale"] = True
     return [name, kw]
 
 
@@ -109,9 +111,9 @@ def gen_probs(rnd, k):
 
 
 def gen_cfg(rnd, lp_names=None, np_names=None, with_np=None, arm_kinds=("int", "str", "float"), binarizer=False,
-            lp=None, allow_probs=True, arms_lo=2, arms_hi=6):
+            lp=None, allow_probs=True, arms_lo=2, arms_hi=6, scale=False):
     kind, arms, spare = gen_arms(rnd, arm_kinds, arms_lo, arms_hi)
-    lp = lp or gen_lp(rnd, names=lp_names, binarizer=binarizer)
+    lp = lp or gen_lp(rnd, names=lp_names, binarizer=binarizer, scale=scale)
     np_ = None
     if with_np is None:
         with_np = rnd.random() < 0.6
